@@ -14,3 +14,11 @@ CHECKS["C16"] = (
     "Trusted: the harness's own traversal of dict/list/tuple/module graphs; Python dict semantics. Sets and float/bool keys are outside the stated domain and not generated.",
     "DESIGN.md 3 C16",
 )
+
+CHECKS["C17"] = (
+    "exploration",
+    "runtime monitoring: the real constructor executed on a boundary-value grid, judged by an independent predicate of the documented domain and expected exception class",
+    "Every value of a per-hyperparameter grid (just-outside, boundary, interior, NaN) is combined one and two at a time (thorough: plus all triples for one baseline) around three valid baselines (~9k constructions quick); accept/reject and exception class are compared with a predicate transcribed from the property text, resolved beta3/start defaults are read back from param_groups; grafting-config bounds and unsupported config subclasses (NotImplementedError) are exercised. The grid is enumerated completely; values between grid points are not explored.",
+    "Trusted: the predicate in vf/props/c17.py (transcription of the property text). Per-group overrides and infinite values are outside the stated domain.",
+    "DESIGN.md 3 C17",
+)
